@@ -26,6 +26,29 @@ def main(path):
     from refs.gauss import FloatOps
 
     p = json.load(open(path))
+    if p.get("kind") == "regex":
+        # witness of a regular-language obligation: evaluated with Python's own `re` on the pattern taken from
+        # the current source (p["where"] = function / index of the pattern)
+        import re
+        from checks.c18 import extract_patterns
+
+        pat = extract_patterns()[p["where"][0]][p["where"][1]]
+        text = p["text"]
+        if p["mode"] == "fullmatch":
+            ok = re.fullmatch(pat, text) is not None
+        else:
+            ok = re.search(pat, text) is not None
+        bad = ok != p["expect"]
+        return ("reproduced" if bad else "not-reproduced"), f"re.{p['mode']}({pat!r}, {text!r}) -> {ok}, expected {p['expect']}"
+    if p.get("kind") == "pycall":
+        m = importlib.import_module(p["module"])
+        try:
+            r = eval(p["call"], vars(m))
+            bad = not bool(r)
+            detail = f"{p['call']} returned {r!r}"
+        except BaseException as e:  # noqa: BLE001
+            bad, detail = True, f"{p['call']} raised {type(e).__name__}: {e}"
+        return ("reproduced" if bad else "not-reproduced"), detail
     mod = importlib.import_module(p["module"])
     case = getattr(mod, p["cls"])(**p["params"])
     vals = load_values(p["values"])
